@@ -23,6 +23,7 @@ SOLVER_KW = {
     "rvi": dict(epsilon=0.02),
     "pvi": dict(gamma=0.5, epsilon=0.01, period=3, clear_value_history_on_convergence=False),
     "savi": dict(gamma=0.5, epsilon=0.01, max_batch_size=2),
+    "pi": dict(gamma=0.9, epsilon=1e-3, max_eval_iter=4),
 }
 ROOTDIR = os.path.dirname(os.path.dirname(os.path.dirname(os.path.abspath(__file__))))
 
@@ -40,13 +41,14 @@ def histories(ctx):
     # (including the last slot) is checkpointed and recovered
     H.append(dict(solver="pvi", f=1, m=2, asy=True, k1=4, k2=None))
     H.append(dict(solver="savi", f=2, m=1, asy=False, k1=4, k2=None))
+    H.append(dict(solver="pi", f=1, m=2, asy=True, k1=3, k2=None))
     if not q:
         H = []
         H.append(dict(solver="pvi", f=1, m=1, asy=False, k1=8, k2=3))
         for crc in ("tmp-present", "just-committed", "deletion-half-done"):
             for solver, asy in (("vi", True), ("pvi", True), ("rvi", False)):
                 H.append(dict(solver=solver, f=2, m=2, asy=asy, k1=5, k2=None, crc=crc, k2c=3))
-        for solver, (f, m), asy in itertools.product(("vi", "rvi", "pvi", "savi"), ((1, 1), (2, 2), (1, 2), (2, 1)), (False, True)):
+        for solver, (f, m), asy in itertools.product(("vi", "rvi", "pvi", "savi", "pi"), ((1, 1), (2, 2), (1, 2), (2, 1)), (False, True)):
             H.append(dict(solver=solver, f=f, m=m, asy=asy, k1=4 if f == 1 else 5, k2=3 if (f + m + asy) % 2 == 0 else None))
     return H
 
@@ -264,7 +266,7 @@ def run(ctx):
         prefixes = [(k, None) for k in range(r.get("first_k", 0), r["n"] + 1)]
         for i in r["appends"]:
             if i + 1 > r.get("first_k", 0):
-                prefixes += [(i + 1, "half"), (i + 1, "allbut1")]
+                prefixes += [(i + 1, "half")] if ctx.quick else [(i + 1, "half"), (i + 1, "allbut1")]
         for i in range(0, len(prefixes), 8):
             jobs.append({"path": r["path"], "prefixes": prefixes[i:i + 8]})
             meta.append(label)
@@ -333,7 +335,7 @@ def run(ctx):
         if o["fail"] and not kr.get("not_killed"):
             ctx.violation("%s | %s" % (label, o["outcome"].split("@")[0]), "process really SIGKILLed at %s: %s" % (kr["kill"], o["fail"]), kr["kill"])
         shutil.rmtree(kr["ROOT"], ignore_errors=True)
-    ctx.note("rule", "crash states = every prefix (0..n) of every recorded write history, plus two torn variants (half, all-but-one byte) of every multi-byte write; each rebuilt at a same-length sibling path and recovered; oracle from an independent numpy trajectory")
+    ctx.note("rule", "crash states = every prefix (0..n) of every recorded write history, plus torn variants (half; thorough also all-but-one byte) of every multi-byte write; each rebuilt at a same-length sibling path and recovered; oracle from an independent numpy trajectory")
     ctx.assume("a process kill preserves the page cache, so no unsynced-block dropping dimension; cross-thread re-orderings are not synthesised (only instants of real recordings are crash states)")
     ctx.assume("recoveries run in warm worker processes with 64-bit mode on (fresh-process precision is C09's business)")
     if not ctx.cov["samples"]:
